@@ -12,7 +12,7 @@
      process fuel fl F ..  GlyphOrderWork::exec under option set fl; st_lossy of its result is
                            false when no contour was passed over on the way (see below). *)
 From Coq Require Import List Permutation Arith Bool NArith ZArith QArith Qcanon Qabs Lqa.
-From FV.C12 Require Import Model Ceq Sem Ops Pipeline Quant Proofs.
+From FV.C12 Require Import Model Ceq Sem Ops Pipeline Range Quant Proofs.
 Import ListNotations.
 Close Scope Qc_scope.
 Close Scope Q_scope.
@@ -120,19 +120,21 @@ Proof.
 Qed.
 Print Assumptions decompose_multiset_refuted.
 
-(* Flattening (flatten_glyph): the resolved contours are the same list, in the
-   same order, whenever no component with both contours and components is walked
-   through (second component of the result false). *)
-Theorem flatten_preserves_resolve : forall P T tmul tid act,
+(* Flattening (flatten_glyph, including its decomposition of a glyph whose composed
+   2x2 leaves the F2Dot14 range): same resolved contours up to order and
+   orientation and same advance, whenever no component with both contours and
+   components is walked through and the visited test of the decomposition does
+   not fire (second component of the result false).  While the glyph stays a
+   composite the list is identical, in the same order (Ops.flat_sem). *)
+Theorem flatten_preserves_resolve : forall P T tmul tid act tneg tovf teqb,
   transform_laws P T tmul tid act ->
   forall fuel (F : font P T) (g g' : glyph P T) cs,
-    flatten_glyph P T tmul fuel F g = Some (g', false) ->
-    gres act F g cs -> gres act F g' cs /\ g_contours g' = g_contours g /\ g_adv g' = g_adv g.
+    flatten_glyph P T tmul tid act tneg tovf teqb fuel F g = Some (g', false) ->
+    gres act F g cs -> (exists cs', gres act F g' cs' /\ ceqs cs cs') /\ g_adv g' = g_adv g.
 Proof.
-  intros P T tmul tid act (Hm & _) fuel F g g' cs H Hg. split.
+  intros P T tmul tid act tneg tovf teqb (Hm & Hi) fuel F g g' cs H Hg. split.
   - eapply flatten_looks; eauto.
-  - unfold flatten_glyph in H. destruct (g_comps g); [inversion H; subst; auto|].
-    destruct (flat _ _ _ _ _ _ _ _) as [[s d]|]; [|discriminate]. inversion H; subst; auto.
+  - eapply flatten_shape; eauto.
 Qed.
 Print Assumptions flatten_preserves_resolve.
 
@@ -230,29 +232,46 @@ Proof.
 Qed.
 
 (* ---- what the backend stores ------------------------------------------------------------ *)
-(* Flattening composes transforms and nothing re-tests the result: a source in
-   which every component is within [-2,2] yields, under --flatten-components, a
-   component with 2x2 entry 9/4, which F2Dot14 stores as 32767/16384. *)
-Theorem flatten_overflow_refuted :
-  exists (l : list (name * qglyph)) names s g t,
-    source_ok pt aff (font_of l) /\
-    forallb (fun ng => negb (existsb (fun ct => aff_ovf (snd ct)) (g_comps (snd ng)))) l = true /\
-    q_process 10 (mkFlags true false false true) (font_of l) names names = Some s /\
-    st_font s (Src 2) = Some g /\ g_comps g = [(Src 0, t)] /\ aff_ovf t = true /\ xx t = qq 9 4 /\
-    (f2dot14 (9 # 4) == 32767 # 16384)%Q.
+(* Whatever the options and whatever the source's transforms: after processing, no
+   glyph of the final glyph order has a component whose 2x2 leaves [-2,2], so the
+   backend's saturating F2Dot14 conversion never sees an out-of-range value and
+   the hypothesis `in_range` of quantisation_bound holds for every stored
+   component.  (Glyphs whose own components overflow are decomposed by the fixing
+   loop; flatten_glyph re-tests the composed transforms and decomposes: the repair
+   of the defect in which 1.5 * 1.5 was stored as 1.99994.)  Needs only that the
+   overflow flags of the source glyphs are what Glyph::new computes and that the
+   identity is in range. *)
+Theorem stored_components_in_range : forall P T tmul tid act tneg tovf tnonid tvary teqb,
+  tovf tid = false ->
+  forall (F0 : font P T) fuel fl all order s,
+    closed F0 -> acc P T tovf F0 ->
+    process P T tmul tid act tneg tovf tnonid tvary teqb fuel fl F0 all order = Some s ->
+    forall n g c t, In n (st_order s) -> st_font s n = Some g -> In (c, t) (g_comps g) -> tovf t = false.
 Proof.
-  set (l := [ (Src 0, mk [square] [] true); (Src 1, mk [] [(Src 0, scale (qq 3 2))] true);
-              (Src 2, mk [] [(Src 1, scale (qq 3 2))] true) ]).
-  destruct (q_process 10 (mkFlags true false false true) (font_of l) [Src 0; Src 1; Src 2] [Src 0; Src 1; Src 2]) as [s|] eqn:E;
-    [|vm_compute in E; discriminate].
-  destruct (st_font s (Src 2)) as [g|] eqn:Eg; [|vm_compute in E; inversion E; subst; vm_compute in Eg; discriminate].
-  exists l, [Src 0; Src 1; Src 2], s, g, (scale (qq 9 4)).
-  split; [apply (src_check_ok ex_rank l); vm_compute; reflexivity|].
-  split; [vm_compute; reflexivity|]. split; [exact E|]. split; [exact Eg|].
-  vm_compute in E. inversion E; subst. vm_compute in Eg. inversion Eg; subst.
-  repeat split; reflexivity.
+  intros P T tmul tid act tneg tovf tnonid tvary teqb Hid F0 fuel fl all order s Hc Ha H n g c t Hn Hg Hin.
+  exact (process_in_range P T tmul tid act tneg tovf tnonid tvary teqb Hid F0 fuel fl all order s Hc Ha H n g Hn Hg c t Hin).
 Qed.
-Print Assumptions flatten_overflow_refuted.
+Print Assumptions stored_components_in_range.
+
+(* the input that used to fail: c = 1.5 b, b = 1.5 a under --flatten-components.
+   c is now a simple glyph (the composed scale 9/4 is out of range), b keeps its
+   component; and a source with overflowing and composed-overflowing components
+   meets the hypotheses of the theorem under all 16 option subsets *)
+Example stored_components_in_range_nonvacuous :
+  aff_ovf aff_id = false /\
+  (exists s gb gc,
+     q_process 10 (mkFlags true false false false) ovf_font [Src 0; Src 1; Src 2] [Src 0; Src 1; Src 2] = Some s /\
+     st_font s (Src 1) = Some gb /\ g_comps gb = [(Src 0, scale (qq 3 2))] /\
+     st_font s (Src 2) = Some gc /\ g_comps gc = [] /\ length (g_contours gc) = 1%nat /\ st_lossy s = false) /\
+  forallb (fun fl => match q_process 12 fl ovf_font [Src 0; Src 1; Src 2] [Src 0; Src 1; Src 2] with
+                     | Some _ => true | None => false end) all_flags = true /\
+  (f2dot14 (9 # 4) == 32767 # 16384)%Q.
+Proof.
+  split; [reflexivity|]. split; [|split; [vm_compute; reflexivity|reflexivity]].
+  destruct (q_process 10 (mkFlags true false false false) ovf_font [Src 0; Src 1; Src 2] [Src 0; Src 1; Src 2]) as [s|] eqn:E;
+    [|vm_compute in E; discriminate].
+  vm_compute in E. inversion E; subst. eexists; eexists; eexists. repeat split; reflexivity.
+Qed.
 
 (* A point of the base glyph seen through a chain of n stored components (base
    point rounded, offsets rounded, 2x2 in F2Dot14) against the same point decomposed
